@@ -479,7 +479,12 @@ fn c07(a: &Args) -> Report {
     ];
     let mut s = SeqSpec::new("C07/seq", alphabet, if thorough { 6 } else { 5 });
     s.checks = Checks { no_harm: true, ..Default::default() };
-    let specs = if evidence::part_enabled("seq") { vec![s] } else { vec![] };
+    // the same where unreadable blobs are skipped and stay in the work directory
+    let mut ign = s.clone();
+    ign.name = "C07/seq/ignore-corrupted".into();
+    ign.wcfg.ignore_corrupted = true;
+    ign.depth = s.depth - 1;
+    let specs = if evidence::part_enabled("seq") { vec![s, ign] } else { vec![] };
     let results = run_specs(&specs, a, &no_known);
     let mut rep = seq_report("C07", a, "model_checking", results, SEQ_RULE);
     // the same monitors over every fault placement and over every crash state's recovery
@@ -636,6 +641,23 @@ fn c13(a: &Args) -> Report {
         sp.read_points = false;
         sspecs.push(sp);
     }
+    // every write also asks for a background sync (dirty-byte limit 0) while the channel to the
+    // worker holds one or two messages: maintenance must survive a burst of notifications
+    for cap in [1usize, 2] {
+        let clients: Vec<Vec<COp>> = (0..cap + 2).map(|i| vec![COp::w(7, 10 + i as u64)]).collect();
+        for max_data in [1u64, 2] {
+            let mut sp = SchedSpec::new(&format!("C13/sched/sync-requests/cap{cap}/limit{max_data}"), IoMode::Inplace, vec![Op::w(0, 1)], clients.clone());
+            sp.wcfg.max_data_in_blob = max_data;
+            sp.wcfg.max_dirty = Some(0);
+            sp.channel_capacity = Some(cap);
+            sp.liveness_check = true;
+            sp.keys = vec![0, 7];
+            sp.bound = 2;
+            sp.max_execs = if thorough { 30_000 } else { 3_000 };
+            sp.read_points = false;
+            sspecs.push(sp);
+        }
+    }
     let sres = run_sched_specs(&sspecs, a.threads);
     let srep = sched_report("C13", a, sres, SCHED_RULE, &|_| None);
     merge_reports(&mut rep, srep);
@@ -706,11 +728,14 @@ fn c03(a: &Args) -> Report {
     spec.metas = vec![0];
     let fine_depth = if thorough { 3 } else { 2 };
     let mut r = crate::engines::restart::run(&spec, fine_depth, a.threads);
-    // the other configuration corner (8-byte keys, 70-bit bloom, filter groups of two, background I/O)
+    // the other configuration corner (8-byte keys, 70-bit bloom, filter groups of two, background
+    // I/O, data validation during index regeneration)
     let mut alt = spec.clone();
     alt.name = "C03/restart/alt-config".into();
     alt.depth = spec.depth - 1;
     alt_config(&mut alt);
+    // ... with the data of every record validated whenever an index is regenerated at start-up
+    alt.wcfg.validate_data = true;
     let r2 = crate::engines::restart::run(&alt, fine_depth - 1, a.threads);
     r.stats.states += r2.stats.states;
     r.stats.restarts += r2.stats.restarts;
@@ -1043,6 +1068,11 @@ fn c08_instances(thorough: bool) -> Vec<SchedSpec> {
             s.channel_capacity = Some(cap);
             s.bound = if thorough { 3 } else { 2 };
             s.max_execs = if thorough { 100_000 } else { 20_000 };
+            specs.push(s.clone());
+            // the same with every write asking for a background sync (dirty-byte limit 0): one
+            // more kind of notification competes for the channel
+            s.name = format!("C08/backpressure/cap{cap}/{mode:?}/syncing");
+            s.wcfg.max_dirty = Some(0);
             specs.push(s);
         }
     }
@@ -1323,6 +1353,10 @@ fn c12(a: &Args) -> Report {
                 ("WW", vec![vec![COp::w(0, 10), COp::w(0, 11)]]),
                 ("WW|W", vec![vec![COp::w(0, 10), COp::w(0, 11)], vec![COp::w(1, 12)]]),
                 ("WW|WF", vec![vec![COp::w(0, 10), COp::w(0, 11)], vec![COp::w(1, 12), COp::M(Op::Fsync)]]),
+                // an index dump is in progress (rotation just happened) when the sync is requested
+                ("Rot;W;W", vec![vec![COp::M(Op::Rot), COp::w(0, 10), COp::w(0, 11)]]),
+                ("Rot|WW", vec![vec![COp::M(Op::Rot)], vec![COp::w(0, 10), COp::w(0, 11)]]),
+                ("TryClose|WW", vec![vec![COp::M(Op::TryClose)], vec![COp::w(0, 10), COp::w(0, 11)]]),
             ] {
                 let mut s = SchedSpec::new(&format!("C12/sched/max_dirty={md}/{mode:?}/{cname}"), mode, vec![Op::w(1, 1)], clients);
                 s.wcfg.max_dirty = Some(md);
